@@ -885,13 +885,14 @@ def run_property(pid, spec_kernels, modules, tier, seed, timeout_s, scratch_keep
                  crosscheck=None, jobs=None):
     """Returns a result dict (see evidence.py)."""
     t_start = time.time()
-    kernels = [k for k in spec_kernels if (tier == "thorough" or k.tier == "quick")]
+    rank = {"quick": 0, "thorough": 1, "deep": 2}
+    kernels = [k for k in spec_kernels if rank.get(k.tier, 2) <= rank.get(tier, 0)]
     if only:
         kernels = [k for k in kernels if re.search(only, k.name)]
     variants = sorted(set(v for k in kernels for v in k.variants))
     R = {"property": pid, "tier": tier, "seed": seed, "kernels": [], "build": {}, "queries": [], "violations": [],
          "inconclusive": [], "refused": [], "engine": "M"}
-    crosscheck = (tier == "thorough") if crosscheck is None else crosscheck
+    crosscheck = (tier in ("thorough", "deep")) if crosscheck is None else crosscheck
     with Scratch(modules, variants, keep=scratch_keep) as sc:
         sc.prepare()
         mir = {}
